@@ -274,6 +274,7 @@ func run(repo, dir string, seed uint64, cfg runCfg, keep bool) int {
 		out.Sample(map[string]string{"op": trunc(ls.lines[i], 300), "got": trunc(answers[i], 200), "why": what})
 	}
 	var panics []int
+	shrunk := 0
 	for i, line := range ls.lines {
 		c := ls.checks[i]
 		ans := answers[i]
@@ -296,7 +297,45 @@ func run(repo, dir string, seed uint64, cfg runCfg, keep bool) int {
 			report(i, line, "the driver process died on this op", "an answer")
 			continue
 		}
-		key, what, exp := verdict(ls, answers, i, out)
+		key, what, exp := verdict(ls, answers, i, out.Count)
+		if what != "" && key == "" && shrunk < 4 && (c.class == kFW || c.class == kBL || c.class == kFN) && c.value != nil {
+			// minimise the value (greedy, type-directed) with the driver as the judge
+			shrunk++
+			ukey := fmt.Sprintf("%s:%d", c.unit.Key, c.sidx)
+			judge := func(v *values.Value) (int, *lineSet, []string) {
+				l2 := &lineSet{}
+				genWriteOps(c.unit, c.sidx, ukey, v, l2)
+				a2, err := b.RunLines(l2.lines)
+				if err != nil {
+					return -1, l2, a2
+				}
+				for j := range l2.lines {
+					if l2.checks[j].class == c.class {
+						if _, w2, _ := verdict(l2, a2, j, func(string) {}); w2 != "" {
+							return j, l2, a2
+						}
+					}
+				}
+				return -1, l2, a2
+			}
+			small := valgen.Shrink(c.unit.Schema, c.sidx, c.value, func(v *values.Value) bool { j, _, _ := judge(v); return j >= 0 }, 120)
+			if j, l2, a2 := judge(small); j >= 0 {
+				out.Count("shrink.done")
+				_, w2, e2 := verdict(l2, a2, j, func(string) {})
+				fails++
+				if fails <= 12 {
+					fmt.Printf("ORACLE FAIL (shrunk from %d to %d nodes) %s\n  op: %.300s\n  got: %.300s\n", c.value.Size(), small.Size(), w2, l2.lines[j], a2[j])
+				}
+				in := map[string]interface{}{"op": l2.lines[j], "original_op": trunc(line, 2000), "unit": c.unit.Key, "tag": c.unit.Tag, "options": c.unit.Options,
+					"backend": c.unit.Backend, "schema": c.unit.SchemaLines(), "idl": renderAll(units[c.unit.Index].Prog)}
+				if p := l2.checks[j].pair; p >= 0 {
+					in["partner_op"], in["partner_answer"] = l2.lines[p], a2[p]
+				}
+				out.Fail(vl.OracleFail{Key: l2.lines[j], What: w2, Input: in, Expected: e2, Observed: a2[j]})
+				out.Sample(map[string]string{"op": trunc(l2.lines[j], 300), "got": trunc(a2[j], 200), "why": w2})
+				continue
+			}
+		}
 		if what != "" {
 			if key == "FR-panic" {
 				// many inputs, few causes: the check keys them by cause (asking the model why it panics, see checks/c10.py);
@@ -379,13 +418,11 @@ func addRead(ls *lineSet, c check, key string, in []byte) {
 	ls.add("FR "+key+" "+h, &fc)
 }
 
-func genOps(r *vl.Rng, cfg runCfg, u *batch.UnitInfo, sidx int, key string, v *values.Value, ls *lineSet, out *vl.Out) {
+// genWriteOps adds FW / BL / FN for one value and returns the reference encoding and normal form.
+func genWriteOps(u *batch.UnitInfo, sidx int, key string, v *values.Value, ls *lineSet) (enc []byte, encErr error, norm *values.Value, normErr error) {
 	s := u.Schema
-	st := s.Structs[sidx]
 	vs := v.String()
-	enc, encErr := refcodec.Encode(s, sidx, v)
-	var norm *values.Value
-	var normErr error
+	enc, encErr = refcodec.Encode(s, sidx, v)
 	if encErr == nil {
 		norm, normErr = refcodec.Decode(s, sidx, enc)
 	}
@@ -406,6 +443,13 @@ func genOps(r *vl.Rng, cfg runCfg, u *batch.UnitInfo, sidx int, key string, v *v
 	fwi := ls.add("FW "+key+" "+vs, fw)
 	ls.add("BL "+key+" "+vs, &check{class: kBL, unit: u, sidx: sidx, value: v, toModel: true, pair: fwi})
 	ls.add("FN "+key+" "+vs, &check{class: kFN, unit: u, sidx: sidx, value: v, toModel: true, pair: fwi})
+	return
+}
+
+func genOps(r *vl.Rng, cfg runCfg, u *batch.UnitInfo, sidx int, key string, v *values.Value, ls *lineSet, out *vl.Out) {
+	s := u.Schema
+	st := s.Structs[sidx]
+	enc, encErr, norm, normErr := genWriteOps(u, sidx, key, v, ls)
 	if encErr != nil {
 		return
 	}
@@ -476,8 +520,8 @@ func genOps(r *vl.Rng, cfg runCfg, u *batch.UnitInfo, sidx int, key string, v *v
 			req = append(req, i)
 		}
 	}
-	if len(req) > 0 {
-		pos := req[r.Intn(len(req))]
+	// each required field in turn
+	for _, pos := range req {
 		fs := append(append([]refcodec.RawField{}, fields[:pos]...), fields[pos+1:]...)
 		in := refcodec.Join(fs)
 		addRead(ls, check{class: kValid, unit: u, sidx: sidx, value: v, wantErr: true, note: "required_deleted"}, key, in)
@@ -722,7 +766,7 @@ func skOps(r *vl.Rng, n int, ls *lineSet) {
 
 // verdict evaluates the oracle for line i; returns (key, what, expected); what == "" means fine. key == "" means
 // "use the op line".
-func verdict(ls *lineSet, answers []string, i int, out *vl.Out) (string, string, string) {
+func verdict(ls *lineSet, answers []string, i int, count func(string)) (string, string, string) {
 	c := ls.checks[i]
 	ans := answers[i]
 	line := ls.lines[i]
@@ -734,7 +778,7 @@ func verdict(ls *lineSet, answers []string, i int, out *vl.Out) (string, string,
 	case "R", "RE", kSK:
 		// oracle-only partner lines and the runtime-library tie: nothing to judge here
 	case kFW:
-		return verdictFW(c, ans, out)
+		return verdictFW(c, ans, count)
 	case kBL:
 		fw := answers[c.pair]
 		if !strings.HasPrefix(ans, "ok ") {
@@ -746,21 +790,21 @@ func verdict(ls *lineSet, answers []string, i int, out *vl.Out) (string, string,
 				return "", fmt.Sprintf("BLength differs from the %d bytes FastAppend wrote", n), "ok " + strconv.Itoa(n)
 			}
 		}
-		out.Count("oracle.ok.BL")
+		count("oracle.ok.BL")
 	case kFN:
-		if ans != answers[c.pair] {
+		if canonAns(ans) != canonAns(answers[c.pair]) { // two calls iterate Go maps in different orders
 			return "", "FastWrite into a BLength() buffer differs from FastAppend (or overflows)", answers[c.pair]
 		}
-		out.Count("oracle.ok.FN")
+		count("oracle.ok.FN")
 	case kFO:
 		if ans != "ok "+strconv.Itoa(c.wantOff) {
 			return "", "FastRead does not report the length of the struct it consumed", "ok " + strconv.Itoa(c.wantOff)
 		}
-		out.Count("oracle.ok.FO")
+		count("oracle.ok.FO")
 	case kErrCls:
 		ra := answers[c.pair]
 		if ans == "panic" {
-			out.Count("errclass.FE_panic") // the same input is judged by its FR line
+			count("errclass.FE_panic") // the same input is judged by its FR line
 			return "", "", ""
 		}
 		cls := func(s string) string {
@@ -773,9 +817,9 @@ func verdict(ls *lineSet, answers []string, i int, out *vl.Out) (string, string,
 			return "", "FastRead and Read fail differently (error class)", ra
 		}
 		if ans != ra {
-			out.Count("errclass.required_name_differs")
+			count("errclass.required_name_differs")
 		}
-		out.Count("oracle.ok.errclass." + c.note + "." + cls(ans))
+		count("oracle.ok.errclass." + c.note + "." + cls(ans))
 	case kValid, kTrunc, kCorrupt, kDepth:
 		ra := answers[c.pair]
 		if ans == "panic" {
@@ -802,15 +846,15 @@ func verdict(ls *lineSet, answers []string, i int, out *vl.Out) (string, string,
 					return "", "FastRead (and Read) produce an object different from the reference decode (" + c.note + ")", "ok " + c.expect.String()
 				}
 			}
-			out.Count("oracle.ok.valid." + c.note)
+			count("oracle.ok.valid." + c.note)
 		case kTrunc:
 			if ans != "err" {
 				return "", "FastRead accepts a truncated input", "err"
 			}
 			if ra != "err" {
-				out.Count("note.R_accepts_truncated")
+				count("note.R_accepts_truncated")
 			}
-			out.Count("oracle.ok.trunc")
+			count("oracle.ok.trunc")
 		case kCorrupt:
 			ok1, ok2 := strings.HasPrefix(ans, "ok "), strings.HasPrefix(ra, "ok ")
 			switch {
@@ -819,18 +863,18 @@ func verdict(ls *lineSet, answers []string, i int, out *vl.Out) (string, string,
 			case ok1 != ok2:
 				// the two runtimes' Skip differ on malformed data (apache's ignores some errors): counted, not judged
 				if ok1 {
-					out.Count("divergence.corrupt.FR_ok_R_err." + c.note)
+					count("divergence.corrupt.FR_ok_R_err." + c.note)
 				} else {
-					out.Count("divergence.corrupt.FR_err_R_ok." + c.note)
+					count("divergence.corrupt.FR_err_R_ok." + c.note)
 				}
 			}
 			if ok1 {
-				out.Count("oracle.ok.corrupt.accepted")
+				count("oracle.ok.corrupt.accepted")
 			} else {
-				out.Count("oracle.ok.corrupt.rejected")
+				count("oracle.ok.corrupt.rejected")
 			}
 		case kDepth:
-			out.Count("depth." + c.note + ".FR_" + strings.Fields(ans)[0] + ".R_" + strings.Fields(ra)[0])
+			count("depth." + c.note + ".FR_" + strings.Fields(ans)[0] + ".R_" + strings.Fields(ra)[0])
 		}
 	default:
 		return "", "unknown check class " + c.class, ""
@@ -839,7 +883,23 @@ func verdict(ls *lineSet, answers []string, i int, out *vl.Out) (string, string,
 	return "", "", ""
 }
 
-func verdictFW(c *check, ans string, out *vl.Out) (string, string, string) {
+// canonAns canonicalises the map entry order of an `ok <hex>` answer.
+func canonAns(ans string) string {
+	if !strings.HasPrefix(ans, "ok ") {
+		return ans
+	}
+	raw, err := hex.DecodeString(strings.TrimPrefix(ans[3:], "-"))
+	if err != nil {
+		return ans
+	}
+	cb, err := refcodec.Canon(raw)
+	if err != nil {
+		return ans
+	}
+	return "ok " + hx(cb)
+}
+
+func verdictFW(c *check, ans string, count func(string)) (string, string, string) {
 	s := c.unit.Schema
 	if ans == "panic" {
 		return "", "FastAppend panics", "ok <hex>"
@@ -856,7 +916,7 @@ func verdictFW(c *check, ans string, out *vl.Out) (string, string, string) {
 		if _, err := refcodec.Canon(raw); err != nil {
 			return "", "FastAppend bytes are not a well-formed struct (" + c.note + "): " + err.Error(), "well-formed"
 		}
-		out.Count("oracle.noref.FW." + c.note)
+		count("oracle.noref.FW." + c.note)
 		return "", "", ""
 	}
 	got, derr := refcodec.Decode(s, c.sidx, raw)
@@ -864,7 +924,7 @@ func verdictFW(c *check, ans string, out *vl.Out) (string, string, string) {
 		if derr == nil {
 			return "", "bytes decode although the reference encoding does not", "undecodable"
 		}
-		out.Count("oracle.ok.FW.no_normal_form")
+		count("oracle.ok.FW.no_normal_form")
 		return "", "", ""
 	}
 	if derr != nil {
@@ -880,7 +940,7 @@ func verdictFW(c *check, ans string, out *vl.Out) (string, string, string) {
 		}
 		return "", "FastAppend bytes decode to " + trunc(got.String(), 300) + ", not to the value", "ok " + c.expect.String()
 	}
-	out.Count("oracle.ok.FW")
+	count("oracle.ok.FW")
 	return "", "", ""
 }
 
